@@ -3,7 +3,7 @@
 From Coq Require Import ZArith List Bool String.
 From Coq.Strings Require Import Byte.
 Import ListNotations.
-Require Import MS.Base.Hex MS.Base.Path MS.Model.Catalog MS.Proofs.Catalog_seq MS.Proofs.Catalog_seq_K1 MS.Proofs.Catalog_seq_K2.
+Require Import MS.Base.Hex MS.Base.Path MS.Model.Catalog MS.Proofs.Catalog_seq MS.Proofs.Catalog_seq_K1 MS.Proofs.Catalog_seq_K2 MS.Proofs.Catalog_seq_K3.
 
 (** what "consistent" means after a history [ops] from an empty data root:
     - the in-memory catalog (tree AND directMap) is exactly what catalog.NewDirectory(root) builds from the
@@ -31,6 +31,12 @@ Print Assumptions C17_seq_K1.
 Theorem C17_seq_K2 : forall ops, Forall (fun o => In o (alphabet K2)) ops -> consistent K2 ops.
 Proof. exact (run_consistent K2 tab2 K2_closure K2_init K2_scan K2_listing). Qed.
 Print Assumptions C17_seq_K2.
+
+(** The same for K3 = {A/1Min/G, A/1Min/GH, AB/1Min/G}: names that are string prefixes of one another at the same
+    level (the path index is keyed by path strings). *)
+Theorem C17_seq_K3 : forall ops, Forall (fun o => In o (alphabet K3)) ops -> consistent K3 ops.
+Proof. exact (run_consistent K3 tab3 K3_closure K3_init K3_scan K3_listing). Qed.
+Print Assumptions C17_seq_K3.
 
 (** Non-vacuity: a history that creates, adds a year, destroys, recreates with the other schema and restarts
     is over K1's alphabet; it ends with two buckets and three year files. *)
